@@ -13,12 +13,34 @@ import traceback
 import warnings
 
 warnings.simplefilter('ignore')
-import z3
+try:
+    import z3
+    from .symx import core, sstr, instr
+    from .symx.sstr import SymStr, mks
+    from .symx.symre import b_and, b_or, b_not, to_z3
+except ImportError:          # plain-CPython replay (no solver installed there): concrete fallbacks
+    z3 = None
+
+    class SymStr(object):
+        def __init__(self, s):
+            self.s = s if isinstance(s, str) else s.s
+
+        def eq_term(self, o):
+            return str.__eq__(str(self.s), str(o.s if isinstance(o, SymStr) else o))
+
+    def b_and(*xs):
+        return all(x is True for x in xs)
+
+    def b_or(*xs):
+        return any(x is True for x in xs)
+
+    def b_not(x):
+        return not x
+
+    def to_z3(x):
+        return x
 
 from . import common
-from .symx import core, sstr, instr
-from .symx.sstr import SymStr, mks
-from .symx.symre import b_and, b_or, b_not, to_z3
 
 
 def fz(x):
@@ -73,6 +95,11 @@ def same(hz, a, b, opts):
         if not (isinstance(a, D.Coordinate) and isinstance(b, D.Coordinate)):
             return False
         return abs(a.latitude - b.latitude) < 1e-6 and abs(a.longitude - b.longitude) < 1e-6
+    # a Quantity without unit and a plain number are the same Haystack Number
+    if isinstance(a, D.Qty) and not a.unit:
+        a = a.value
+    if isinstance(b, D.Qty) and not b.unit:
+        b = b.value
     if isinstance(a, D.Qty) or isinstance(b, D.Qty):
         if not (isinstance(a, D.Qty) and isinstance(b, D.Qty)):
             return False
@@ -85,6 +112,13 @@ def same(hz, a, b, opts):
     if isinstance(a, datetime.datetime) or isinstance(b, datetime.datetime):
         if not (isinstance(a, datetime.datetime) and isinstance(b, datetime.datetime)):
             return False
+        if opts.get('zone_names', True):
+            Z = sys.modules['hszinc.zoneinfo']
+            try:
+                if Z.timezone_name(a) != Z.timezone_name(b):      # same Haystack zone name (the map itself is C17's subject)
+                    return False
+            except ValueError:
+                return False
         return a == b and a.utcoffset() == b.utcoffset() and a.replace(tzinfo=None) == b.replace(tzinfo=None)
     if isinstance(a, (datetime.date, datetime.time)) or isinstance(b, (datetime.date, datetime.time)):
         return type(a) is type(b) and a == b
@@ -161,8 +195,20 @@ def same_grid(hz, g1, g2, opts):
 
 # ---------------------------------------------------------------------------
 # payload kinds (what is symbolic) and positions (where it sits)
+REFCHARS = [[48, 57], [65, 90], [97, 122], [95, 95], [58, 58], [45, 46], [126, 126]]
+UNITCHARS = [[65, 90], [97, 122], [37, 37], [95, 95], [47, 47], [36, 36], [0x80, 0xfffe]]
+BINCHARS = [[0x20, 0x27], [0x2a, 0x7e]]
+XTYPECHARS = [[48, 57], [65, 90], [97, 122], [95, 95]]
+ALPHABET = {'refname': REFCHARS, 'unit': UNITCHARS, 'bin': BINCHARS, 'xstrtype': XTYPECHARS, 'refname_dis': REFCHARS}
+MIN_LEN = {'refname': 1, 'unit': 1, 'xstrtype': 1, 'refname_dis': 1}
+
+
 def make_payload(hz, kind, s):
     D = sys.modules['hszinc.datatypes']
+    if kind == 'xstrtype':
+        return D.XStr(s, 'pay"load')
+    if kind == 'refname_dis':
+        return D.Ref(s, 'a "b"')
     if kind == 'str':
         return s
     if kind == 'uri':
@@ -261,6 +307,10 @@ def run_job(job):
         cs = [z3.Int('c%d' % i) for i in range(N)]
         for i, c in enumerate(cs):
             char_domain(ex, c, split if (i == 0 and split) else None)
+            if kind in ALPHABET:
+                ex.assume(z3.Or(*[z3.And(c >= lo, c <= hi) for lo, hi in ALPHABET[kind]]))
+            if kind == 'unit' and i == 0:
+                ex.assume(c != 95)      # a unit cannot start with '_' in ZINC: the digits production owns it (not a representable value)
             for reg in exclude:
                 ex.assume(z3.Not(z3.Or(*[z3.And(c >= lo, c <= hi) for lo, hi in reg['chars']])))
         s = SymStr(cs) if N else ''
@@ -313,13 +363,59 @@ def run_job(job):
     return out
 
 
-def replay(hz, job, payload):
-    """Plain-CPython replay of one model through the public API (real text layer for both formats).
-    Returns None when the property holds for this payload, else a message."""
-    fmt, kind, position, version = job['fmt'], job['kind'], job['position'], job['version']
+def catalogue(hz, version):
+    """boundary values of every non-text kind (concrete configurations; nothing symbolic)"""
+    import datetime
+    import pytz
+    D = sys.modules['hszinc.datatypes']
+    Z = sys.modules['hszinc.zoneinfo']
+    v3 = version.startswith('3')
+    vals = [True, False, D.MARKER, D.REMOVE, 0, 1, -1, 7.5, -0.0, 1e20, 1e-7, 5e-324, 1.7976931348623157e308, 2 ** 53, -123456.789,
+            float('inf'), float('-inf'), float('nan'),
+            D.Quantity(1.5, 'kW'), D.Quantity(-3, u'\u00b0C'), D.Quantity(2, '%'), D.Quantity(1, '$'), D.Quantity(1e-7, 'm/s'),
+            D.Quantity(1.5, None), D.Quantity(2.0, ''),
+            datetime.date(2020, 2, 29), datetime.date(1, 1, 1), datetime.date(9999, 12, 31),
+            datetime.time(0, 0, 0), datetime.time(23, 59, 59, 999999), datetime.time(1, 2, 3, 500000), datetime.time(12, 30),
+            pytz.utc.localize(datetime.datetime(2020, 1, 1, 0, 0, 0)),
+            Z.timezone('Paris').localize(datetime.datetime(2021, 7, 1, 12, 30, 15, 250000)),
+            Z.timezone('New_York').localize(datetime.datetime(2021, 1, 1, 23, 59, 59)),
+            Z.timezone('Kolkata').localize(datetime.datetime(1999, 12, 31, 23, 59, 59, 1)),
+            D.Coordinate(37.5, -122.25), D.Coordinate(-90, 180), D.Coordinate(0.123456, 0), D.Coordinate(-0.5, 0.000001),
+            D.Ref('a-b.c:d~e_1'), D.Ref('x', 'dis play'), D.Ref('x', ''), D.Bin('text/plain'), D.Uri('http://a/b?c=d&e#f'), D.Uri(''),
+            '', 'plain', 'n:1', 'T', '2020-01-01', u'\u20ac\U0001f600']
+    if v3:
+        ng = hz.Grid(version=version, columns=[('k', [])])
+        ng.append({'k': 1})
+        eg = hz.Grid(version=version, columns=[('e', [])])
+        vals += [D.NA, D.XStr('hex', 'deadbeef'), D.XStr('b64', '3q2+7w=='), D.XStr('Span', 'today'),
+                 [], [1, 'a', D.MARKER, None, D.Ref('r')], [[1], [2, [3, 'x']]], {}, {'a': 1, 'b': D.MARKER, 'c': 'x y'},
+                 [{'k': [D.NA, {'z': 2}]}], ng, eg, [ng, 5], {'g': ng}]
+    return vals
+
+
+def run_catalog(job):
+    hz = load()
+    fails = []
+    n = 0
+    t0 = time.time()
+    positions = job['positions']
+    skip = set(job.get('skip_types', []))
+    for i, v in enumerate(catalogue(hz, job['version'])):
+        if type(v).__name__ in skip:
+            continue
+        for pos in positions:
+            n += 1
+            msg = check_concrete(hz, job, v, pos)
+            if msg is not None:
+                fails.append(dict(index=i, value=repr(v)[:80], position=pos, what=msg[:300]))
+    return dict(job=job, status='exhausted', paths=n, aborted=0, reached=n, checks=0, solver_s=0.0, wall_s=round(time.time() - t0, 2),
+                errors=[], samples=[], functions=sorted(instr.CALLED)[:200], nontrivial=n, catalog_failures=fails)
+
+
+def check_concrete(hz, job, value, position):
+    fmt, version = job['fmt'], job['version']
     multi = job.get('multi', False)
     opts = dict(six_decimals=(fmt == 'json'), ordered_meta=True)
-    value = make_payload(hz, kind, payload)
     g = build_grid(hz, position, value, version)
     mode = hz.MODE_ZINC if fmt == 'zinc' else hz.MODE_JSON
     try:
@@ -338,14 +434,29 @@ def replay(hz, job, payload):
             return 'shape changed: rows=%d cols=%r' % (len(b), list(b.column.keys()))
         f = same_grid(hz, g, b, opts)
         if f is not True:
-            return 'content differs: sent %r got back %r' % (list(g), list(b))
+            return 'content differs: sent %r got back %r' % (list(g)[1], list(b)[1])
     return None
+
+
+def replay_catalog(hz, job, payload):
+    """payload = [index, position]"""
+    v = catalogue(hz, job['version'])[payload[0]]
+    return check_concrete(hz, job, v, payload[1])
+
+
+def replay(hz, job, payload):
+    """Plain-CPython replay of one model through the public API (real text layer for both formats).
+    Returns None when the property holds for this payload, else a message."""
+    if job.get('kind') == 'catalog':
+        return replay_catalog(hz, job, payload)
+    value = make_payload(hz, job['kind'], payload)
+    return check_concrete(hz, job, value, job['position'])
 
 
 if __name__ == '__main__':
     job = json.loads(sys.argv[1])
     try:
-        res = run_job(job)
+        res = run_catalog(job) if job.get('kind') == 'catalog' else run_job(job)
     except BaseException:
         res = dict(job=job, status='fault', error=traceback.format_exc()[-2000:])
     sys.stdout.write('\nTEXT-RESULT ' + json.dumps(res) + '\n')
